@@ -609,3 +609,45 @@ def analyse_skip_arms(M, ses, rep):
         if seen == 0:
             raise Inconclusive(f"{fname}: no path consults should_format_node")
     return flagged
+
+
+def analyse_format_code_output(M, ses, rep):
+    """lib.rs::format_code: the text it returns is the printed AST and nothing else - on every Ok path the payload is the very String
+    `Ast::to_string` produced (no byte is appended, trimmed or replaced afterwards: text outside a range / inside an ignore region is
+    only safe because the printer reproduces untouched nodes verbatim), printed exactly once, from the AST format_ast returned."""
+    import z3
+    from .mirsym import Agg, Lazy
+    from .summaries import deref_val
+    from .session import find_calls
+    flagged = []
+    ex = ses.executor("lib", "default", inline=lambda n, f: False)
+    fn = ses.need(ex, "format_code")
+    args = [ex.fresh_lazy(t, p + ":" + t) for p, t in fn.params]
+    outs = [o for o in ex.run(fn, args) if o.kind == "return"]
+    n_ok = 0
+    for pi, o in enumerate(outs):
+        v = o.value
+        if not (isinstance(v, Agg) and v.variant == "Ok"):
+            continue
+        n_ok += 1
+        payload = deref_val(ex, o.state, v.fields[0]) if v.fields else None
+        prints = find_calls(o.trace, lambda n: n.split("::")[-1] in ("to_string", "print") and ("Ast" in n or "ToString" in n))
+        strings = [c for c in o.trace if c[0] in ("havoc", "effect") and c[3] is not None and c[3] is payload]
+        ok = len(prints) == 1 and prints[0][2] is payload
+        # any other call that was handed the string mutably / by value after it was printed
+        later = []
+        if ok:
+            idx = next(i for i, c in enumerate(o.trace) if c[0] in ("havoc", "effect") and c[3] is payload)
+            for c in o.trace[idx + 1:]:
+                if c[0] in ("havoc", "effect") and any((a is payload) or (deref_val(ex, o.state, a) is payload) for a in (c[2] or []) if a is not None):
+                    nm = c[1].split("::")[-1]
+                    if nm not in ("drop", "drop_in_place", "clone", "len", "is_empty", "as_str", "deref"):
+                        later.append(c[1])
+        r, m = ses.obligation(f"format_code/path{pi}/ok-payload-is-the-printed-ast", list(o.pc), z3.BoolVal(not ok or bool(later)),
+                              "Ok(text): text is the result of the one Ast::to_string call, untouched afterwards")
+        if r == "sat":
+            flagged.append((f"format_code/path{pi}/ok-payload-is-the-printed-ast", "format_code post-processes the printed text (or prints something else than "
+                            "the formatted AST): " + (", ".join(later) or f"{len(prints)} print calls, payload not the printed string"), "output", {}))
+    if not n_ok:
+        raise Inconclusive("format_code has no Ok path")
+    return flagged
